@@ -28,7 +28,7 @@ func (fr *Frame) mapUpdate(x *ssa.MapUpdate) {
 	if !ok {
 		unsup("update of opaque map")
 	}
-	k := asTerm(fr.get(x.Key))
+	k := s.keyTerm(fr.get(x.Key))
 	n := &MapContents{KeyT: mc.KeyT, ElemT: mc.ElemT, Base: mc.Base, Keys: append(append([]*Term{}, mc.Keys...), k), Vals: append(append([]Value{}, mc.Vals...), fr.get(x.Value))}
 	s.heap[m.Obj.ID] = n
 }
@@ -38,8 +38,19 @@ func (s *State) mapDelete(m *MapV, key Value) {
 	if !ok {
 		unsup("delete on opaque map")
 	}
-	n := &MapContents{KeyT: mc.KeyT, ElemT: mc.ElemT, Base: mc.Base, Keys: append(append([]*Term{}, mc.Keys...), asTerm(key)), Vals: append(append([]Value{}, mc.Vals...), nil)}
+	n := &MapContents{KeyT: mc.KeyT, ElemT: mc.ElemT, Base: mc.Base, Keys: append(append([]*Term{}, mc.Keys...), s.keyTerm(key)), Vals: append(append([]Value{}, mc.Vals...), nil)}
 	s.heap[m.Obj.ID] = n
+}
+
+func (s *State) keyTerm(v Value) *Term {
+	switch x := v.(type) {
+	case *Term:
+		return x
+	case *PtrV:
+		return s.ptrID(x)
+	}
+	unsup("map key of %T", v)
+	return nil
 }
 
 func (s *State) mapLen(m *MapV) *Term {
@@ -86,8 +97,10 @@ func (s *State) mapBaseValue(mc *MapContents, k *Term) Value {
 	if f := s.mapBaseFn[mc.Base]; f != nil {
 		return f(k)
 	}
-	unsup("symbolic map %s with non-scalar values", mc.Base)
-	return nil
+	if st, ok := mc.ElemT.Underlying().(*types.Struct); ok && st.NumFields() == 0 {
+		return s.zeroValue(mc.ElemT)
+	}
+	return s.symValueAt(mc.ElemT, "mapval_"+mc.Base, k)
 }
 
 func (fr *Frame) lookup(x *ssa.Lookup) Value {
@@ -103,7 +116,7 @@ func (fr *Frame) lookup(x *ssa.Lookup) Value {
 			if !ok {
 				unsup("lookup in opaque map")
 			}
-			present, val = s.mapGet(mc, asTerm(fr.get(x.Index)), m.Obj.Name)
+			present, val = s.mapGet(mc, s.keyTerm(fr.get(x.Index)), m.Obj.Name)
 		}
 		if x.CommaOk {
 			return &TupleV{Vals: []Value{val, present}}
@@ -118,30 +131,159 @@ func (fr *Frame) lookup(x *ssa.Lookup) Value {
 	return nil
 }
 
+
+// ---- thread-local abstraction (DESIGN 2.7) ----------------------------------------------------
+// The engine is sequential.  `go f()` is recorded and skipped; a receive yields an arbitrary value; a send is
+// recorded; select picks any case.  Every such event goes to the ghost log, so contracts can speak about the
+// order of this function's own communication.  Nothing is claimed about what peers do or when.
+
+func (s *State) chanName(v Value) string {
+	if c, ok := v.(*ChanV); ok && c.Obj != nil {
+		return c.Obj.Name
+	}
+	return "?"
+}
+
+func (s *State) logEvent(callee string, target Value, args ...Value) {
+	s.log = append(s.log, LogEntry{Callee: callee, Target: target, Args: args, Arr: &ArrZero{W: 8}, Off: Const(64, 0), N: Const(64, 0),
+		RetN: Const(64, 0), Err: s.zeroValue(errorType())})
+}
+
 func (fr *Frame) rangeStart(x *ssa.Range) Value {
-	unsup("range over map/string in %s", fr.fn)
+	s := fr.st
+	switch m := fr.get(x.X).(type) {
+	case *MapV:
+		// ghost iteration state: position in an arbitrary enumeration of the keys without repetition
+		it := &OpaqueV{Kind: "mapiter", Aux: map[string]Value{"map": m, "pos": Const(64, 0)}}
+		o := s.newObj(x.Type(), it, "mapiter", true)
+		return &PtrV{Nil: False, Obj: o}
+	}
+	unsup("range over %T in %s", fr.get(x.X), fr.fn)
 	return nil
 }
 
 func (fr *Frame) rangeNext(x *ssa.Next) Value {
-	unsup("range next in %s", fr.fn)
-	return nil
+	s := fr.st
+	p, ok := fr.get(x.Iter).(*PtrV)
+	if !ok {
+		unsup("next on %T", fr.get(x.Iter))
+	}
+	it := s.contents(p.Obj).(*OpaqueV)
+	m := it.Aux["map"].(*MapV)
+	mt := x.Iter.(*ssa.Range).X.Type().Underlying().(*types.Map)
+	// arbitrary: either exhausted, or the next key (some element of the map not yet visited)
+	okT := s.freshVar("range.more", BoolSort)
+	key := s.symValue(mt.Key(), "range.key")
+	val := s.symValue(mt.Elem(), "range.val")
+	s.logEvent("range.next", m, okT, key)
+	s.rangeKeys = append(s.rangeKeys, key)
+	return &TupleV{Vals: []Value{okT, key, val}}
 }
 
 func (fr *Frame) goStmt(x *ssa.Go) {
-	unsup("go statement in %s", fr.fn)
+	s := fr.st
+	name := "?"
+	switch f := x.Call.Value.(type) {
+	case *ssa.Function:
+		name = shortFn(f)
+	case *ssa.MakeClosure:
+		fn := f.Fn.(*ssa.Function)
+		name = shortFn(fn)
+		// captured cells the goroutine may write are shared from now on
+		for i, b := range f.Bindings {
+			if closureWrites(fn, i) {
+				if p, ok := fr.get(b).(*PtrV); ok && p.Obj != nil {
+					p.Obj.Shared = true
+				}
+			}
+		}
+	}
+	var args []Value
+	for _, a := range x.Call.Args {
+		args = append(args, fr.get(a))
+	}
+	s.logEvent("go", nil, append([]Value{&StringV{Lit: &name, Len: Const(64, uint64(len(name))), Arr: &ArrBytes{B: []byte(name)}}}, args...)...)
+}
+
+// closureWrites: does fn (or a closure nested in it) store through its i-th free variable?
+func closureWrites(fn *ssa.Function, i int) bool {
+	if i >= len(fn.FreeVars) {
+		return true
+	}
+	fv := fn.FreeVars[i]
+	for _, ref := range *fv.Referrers() {
+		switch r := ref.(type) {
+		case *ssa.Store:
+			if r.Addr == ssa.Value(fv) {
+				return true
+			}
+		case *ssa.UnOp:
+		case *ssa.MakeClosure:
+			for j, b := range r.Bindings {
+				if b == ssa.Value(fv) && closureWrites(r.Fn.(*ssa.Function), j) {
+					return true
+				}
+			}
+		default:
+			return true
+		}
+	}
+	return false
 }
 
 func (fr *Frame) send(x *ssa.Send) {
-	unsup("channel send in %s", fr.fn)
-}
-
-func (fr *Frame) selectStmt(x *ssa.Select) Value {
-	unsup("select in %s", fr.fn)
-	return nil
+	s := fr.st
+	ch := fr.get(x.Chan)
+	s.blocking++
+	s.logEvent("send", ch, fr.get(x.X))
 }
 
 func (fr *Frame) recv(x *ssa.UnOp, ch Value) Value {
-	unsup("channel receive in %s", fr.fn)
-	return nil
+	s := fr.st
+	et := x.X.Type().Underlying().(*types.Chan).Elem()
+	v := s.symValue(et, "recv."+s.chanName(ch))
+	s.blocking++
+	s.logEvent("recv", ch, v)
+	if x.CommaOk {
+		return &TupleV{Vals: []Value{v, s.freshVar("recv.ok", BoolSort)}}
+	}
+	return v
+}
+
+func (fr *Frame) selectStmt(x *ssa.Select) Value {
+	s := fr.st
+	n := len(x.States)
+	alts := n
+	if !x.Blocking {
+		alts = n + 1
+	}
+	d := s.decide(alts, "select")
+	s.selectCount++
+	if x.Blocking {
+		s.blocking++
+	}
+	idx := d
+	if d == n {
+		idx = -1
+	}
+	vals := []Value{Const(64, uint64(int64(idx))), s.freshVar("select.ok", BoolSort)}
+	for i, st := range x.States {
+		chv := fr.get(st.Chan)
+		if st.Dir == types.RecvOnly {
+			et := st.Chan.Type().Underlying().(*types.Chan).Elem()
+			if i == idx {
+				v := s.symValue(et, "recv."+s.chanName(chv))
+				s.logEvent("recv", chv, v)
+				vals = append(vals, v)
+			} else {
+				vals = append(vals, s.zeroValue(et))
+			}
+		} else if i == idx {
+			s.logEvent("send", chv, fr.get(st.Send))
+		}
+	}
+	if idx == -1 {
+		s.logEvent("select.default", nil)
+	}
+	return &TupleV{Vals: vals}
 }
